@@ -2,7 +2,7 @@
    lemmas) and followed by Print Assumptions.  All theorems are about the [fixed] variant of the
    model (the code with pending_fixes C10_1..3 applied); the Examples at the end exhibit, inside
    Coq, how the [asis] variant (the code as first found) violates the same statements. *)
-From V Require Import Common.NumFacts C10.Model C10.ModelCfg C10.ModelEll C10.Proofs C10.ProofsDeep C10.ProofsCfg C10.ProofsEll.
+From V Require Import Common.NumFacts C10.Model C10.ModelCfg C10.ModelEll C10.Proofs C10.ProofsDeep C10.ProofsCfg C10.ProofsEll C10.ModelBuf C10.ProofsBuf.
 
 (* lookup_pure: whatever the earlier lookups, writes, index_overlap / mix_from calls were -- any
    number of them, so that both bounded caches have filled and evicted -- each of the three cached
@@ -903,4 +903,69 @@ Print Assumptions C10_cfg_fixed_clears.
 Example C10_cfg_fixed_witnesses :
   snd (estepc true fixed (eafterc ex_cfg4 [IC [1; 2; 4; 8]] [] (map EOp redefine_hist)) (EOp (HOp (OGet 0 (KStr "G1"))))) = HB (BVal (VNum 12)) /\
   snd (estepc true fixed (eafterc ex_cfg4 [IM ["g"; "l"] [[1; 2; 4; 8]; [16; 32; 64; 128]]] [] (map EOp phase_alias_hist)) (EOp (HOp (OGet 0 (KStr "l"))))) = HB (BVal (VNum 17)).
+Proof. vm_compute. split; reflexivity. Qed.
+
+
+(* ====================================================================== compositions handed to define_group as numpy arrays
+   the caller keeps (ModelBuf.v): "a scalar written to a group is distributed by the group's composition" -- the composition
+   the group was DEFINED with, whatever the caller does with its own array afterwards *)
+
+(* for EVERY history of look-ups, reads, writes, configuration calls, definitions from caller arrays and writes of the caller
+   into those arrays: the package, the caches, the flow data and every observation are those of the history in which each
+   definition carries the values its view held at the time of the call and the caller's writes are left out.  So every
+   theorem above about erunc histories holds for these histories too *)
+Theorem C10_buf_history_resolves : forall clr vr ops s,
+  bh (fst (brunc clr vr s ops)) = fst (erunc clr vr (bh s) (resolve (bbufs s) ops)) /\
+  bproj (snd (brunc clr vr s ops)) = snd (erunc clr vr (bh s) (resolve (bbufs s) ops)).
+Proof. exact brunc_resolve. Qed.
+Print Assumptions C10_buf_history_resolves.
+
+(* define_group only reads the caller's array: all caller arrays are unchanged and the view still holds what was given *)
+Theorem C10_buf_define_leaves_caller_array : forall clr vr s name ids b len wt,
+  bbufs (fst (bstepc clr vr s (BDefine name ids b len wt))) = bbufs s /\
+  forall buf, nth_error (bbufs s) b = Some buf ->
+    exists e, snd (bstepc clr vr s (BDefine name ids b len wt)) = BD e (firstn len buf).
+Proof. intros. split; [apply define_keeps_bufs|intros buf Hb; apply define_view_obs; exact Hb]. Qed.
+Print Assumptions C10_buf_define_leaves_caller_array.
+
+(* any number of writes of the caller into its arrays changes nothing of the package (table, compositions), the caches or the
+   data, hence no later observation of the flow machine *)
+Theorem C10_buf_caller_writes_frame : forall clr vr pokes s o, forallb is_poke pokes = true ->
+  let s' := fst (brunc clr vr s pokes) in
+  bh s' = bh s /\ snd (bstepc clr vr s' (BOp o)) = snd (bstepc clr vr s (BOp o)).
+Proof.
+  intros clr vr pokes s o H s'. pose proof (pokes_frame clr vr pokes s H) as E. fold s' in E.
+  split; [exact E|]. cbn [bstepc]. rewrite E. destruct (estepc clr vr (bh s) o) as [h' ob]. reflexivity.
+Qed.
+Print Assumptions C10_buf_caller_writes_frame.
+
+(* a successful definition from a view holding v, followed by any writes of the caller: the stored molar and mass compositions
+   of the group are the normalised v (converted by the molecular weights for the other basis) *)
+Theorem C10_buf_group_composition_as_defined : forall clr vr s name ids b len wt buf pokes,
+  nth_error (bbufs s) b = Some buf ->
+  snd (bstepc clr vr s (BDefine name ids b len wt)) = BD None (firstn len buf) ->
+  forallb is_poke pokes = true ->
+  let v := firstn len buf in
+  let c' := hcf (bh (fst (brunc clr vr (fst (bstepc clr vr s (BDefine name ids b len wt))) pokes))) in
+  exists idx, let mwi := map (nthq (mws (hcf (bh s)))) idx in
+    sassoc (comps c') name = Some (let cm := if wt then map2 Qdiv v mwi else v in vdivs cm (qsum cm)) /\
+    sassoc (wcomps c') name = Some (let cw := if wt then v else vmul v mwi in vdivs cw (qsum cw)).
+Proof.
+  intros clr vr s name ids b len wt buf pokes Hb Hob Hp v c'. subst c'.
+  rewrite (pokes_frame clr vr pokes _ Hp).
+  revert Hob. cbn [bstepc]. rewrite Hb. cbn [estepc hstepc cstep].
+  destruct (define_group (hcf (bh s)) name ids (Some (firstn len buf)) wt) as [c1 e] eqn:E.
+  cbn [fst snd bh hcf]. intros Hob. injection Hob as He. subst e.
+  exact (define_stores _ _ _ _ _ _ E).
+Qed.
+Print Assumptions C10_buf_group_composition_as_defined.
+
+(* non-vacuity, and the situation itself: G1 is defined from the caller's array [1; 3], the caller re-uses the array for
+   [7; 1], then 8 is written to G1: the members receive 2 and 6 and the read-back is 8; the caller's array holds [7; 1] *)
+Example C10_buf_reuse_example :
+  let s0 := mkbs (mkhs ex_cfg4 (mkst [] [] [IC [1; 2; 4; 8]]) []) [[1; 3; 0]] in
+  let r := brunc true fixed s0 [BDefine "G9" ["A_"; "B_"] 0 2 false; BPoke 0 [7; 1];
+                                BOp (ESet 0 (KStr "G9") (DNum 8)); BOp (EOp (HOp (OGet 0 (KStr "G9")))); BOp (EOp (HOp (OGet 0 KEll)))] in
+  list_eqb bobs_eqb (snd r) [BD None [1; 3]; BP [7; 1; 0]; BH (HB (BWr None [[2; 6; 4; 8]])); BH (HB (BVal (VNum 8))); BH (HB (BVal (VVec [2; 6; 4; 8])))] = true
+  /\ bbufs (fst r) = [[7; 1; 0]].
 Proof. vm_compute. split; reflexivity. Qed.
